@@ -29,7 +29,12 @@ func propC06(w *World, r *Report) {
 			gt = append(gt, f)
 		}
 	}
+	RunActionProgress(w, r)
+	RunMergeTails(w, r, gt)
+	r.Floor("mergetails", 2)
 	RunMemoKey(w, r, gt)
+	RunReuseKey(w, r, gt)
+	RunControl(r, "reusekey", "ctlContext).reuse", RunReuseKey)
 	RunIterFresh(w, r, gt)
 	r.Floor("iterfresh", 3)
 	RunControl(r, "memokey", "ctlContext).filter", RunMemoKey)
